@@ -368,6 +368,39 @@ package types
 //@ func (V2Transaction).EncodeTo
 //@   unroll loop#1 11
 
+// specified transmission order of the fields of consensus-critical objects (C11 "the byte layout
+// equals the protocol's specified layout"): hand-derived from the protocol description (DESIGN.md
+// Appendix E), not from the encoders; the wire engine checks that the successive items of each
+// encoder's stream are computed from the fields in exactly this order.
+//@ wire-order UnlockConditions Timelock PublicKeys SignaturesRequired
+//@ wire-order SiacoinInput ParentID UnlockConditions
+//@ wire-order SiafundInput ParentID UnlockConditions ClaimAddress
+//@ wire-order FileContract Filesize FileMerkleRoot WindowStart WindowEnd Payout ValidProofOutputs MissedProofOutputs UnlockHash RevisionNumber
+//@ wire-order StorageProof ParentID Leaf Proof
+//@ wire-order CoveredFields WholeTransaction SiacoinInputs SiacoinOutputs FileContracts FileContractRevisions StorageProofs SiafundInputs SiafundOutputs MinerFees ArbitraryData Signatures
+//@ wire-order TransactionSignature ParentID PublicKeyIndex Timelock CoveredFields Signature
+//@ wire-order Transaction SiacoinInputs SiacoinOutputs FileContracts FileContractRevisions StorageProofs SiafundInputs SiafundOutputs MinerFees ArbitraryData Signatures
+//@ wire-order SatisfiedPolicy Policy Signatures Preimages
+//@ wire-order StateElement LeafIndex MerkleProof
+//@ wire-order SiacoinOutput Value Address
+//@ wire-order SiafundOutput Value Address
+//@ wire-order SiacoinElement StateElement ID SiacoinOutput MaturityHeight
+//@ wire-order SiafundElement StateElement ID SiafundOutput ClaimStart
+//@ wire-order ChainIndex Height ID
+//@ wire-order ChainIndexElement StateElement ID ChainIndex
+//@ wire-order FileContractElement StateElement ID FileContract
+//@ wire-order V2FileContractElement StateElement ID V2FileContract
+//@ wire-order AttestationElement StateElement ID Attestation
+//@ wire-order V2FileContract Capacity Filesize FileMerkleRoot ProofHeight ExpirationHeight RenterOutput HostOutput MissedHostValue TotalCollateral RenterPublicKey HostPublicKey RevisionNumber RenterSignature HostSignature
+//@ wire-order V2SiacoinInput Parent SatisfiedPolicy
+//@ wire-order V2SiafundInput Parent ClaimAddress SatisfiedPolicy
+//@ wire-order V2FileContractRevision Parent Revision
+//@ wire-order V2FileContractRenewal FinalRenterOutput FinalHostOutput RenterRollover HostRollover NewContract RenterSignature HostSignature
+//@ wire-order V2StorageProof ProofIndex Leaf Proof
+//@ wire-order V2FileContractResolution Parent Resolution
+//@ wire-order Attestation PublicKey Key Value Signature
+//@ wire-order BlockHeader ParentID Nonce Timestamp Commitment
+
 // documented normalisations of the binary codec (C11)
 //@ wire-ignore FileContractRevision FileContract.Payout "a v1 revision does not transmit the payout; the decoder installs the sentinel MaxCurrency"
 //@ wire-ignore V1Block V2 "V1Block is the v1 prefix of a block; the V2 data follows as a separate pointer item in V2Block"
